@@ -1,5 +1,6 @@
 (* driver for suite "writeabort" (C13): explains check + monitor.
-   case  : the schedule script (not interpreted here)
+   case  : vP|vH (variant of clearWriteAbortState found in the tree: as it is / with the proposed
+           fix; selects the model variant) followed by the schedule script (not interpreted here)
    obs   : event tokens ... | fin <cnt> <blk> <dl> <armed> <probe_ok> <stuck>
    The model result equals the observation when the extracted acceptor finds a run of the model
    with exactly these visible events, the sampled writeState values and the final writeState /
@@ -22,7 +23,8 @@ let word c b d = { Model.cnt = nat_of_int c; Model.blk = b; Model.dl = d }
 
 let add x l = if List.mem x !l then () else l := x :: !l
 
-let handle _case obs =
+let handle case obs =
+  let hv = (match case with "vH" :: _ -> true | _ -> false) in
   let evs, fin = split_at_bar obs in
   let writers = ref [] and aborters = ref [] and hidden = ref [] in
   let ev t =
@@ -51,7 +53,7 @@ let handle _case obs =
     let nats l = List.map nat_of_int (List.rev l) in
     let failed = names (Model.failed (Model.c13_wa_checks log fw fa (bool_of_tok probe) (bool_of_tok stuck))) in
     let model =
-      match Model.wa_accept (nat_of_int 400000) (nats !writers) (nats !aborters) (nats !hidden) log fw fa with
+      match Model.wa_accept hv (nat_of_int 400000) (nats !writers) (nats !aborters) (nats !hidden) log fw fa with
       | Model.Accepted -> obs
       | Model.Rejected k ->
         let k = int_of_nat k in
